@@ -18,7 +18,7 @@ ASSUMPTIONS = ["pandas: default RangeIndex, groupby sorts keys, a group's .index
 BF = "verde.blockreduce.BlockReduce.filter"
 BC = "verde.blockreduce.BlockReduce._block_coordinates"
 AW = "verde.blockreduce.attach_weights"
-CFI = ("call", ("glob", "verde.base.utils.check_fit_input"), (("param", "coordinates"), ("param", "data"), ("param", "weights")), (("unpack", const(False)),), 0)
+CFI = ("call", ("glob", "verde.base.utils.check_fit_input"), (("param", "coordinates"), ("param", "data"), ("param", "weights"), const(False)), (), 0)   # canonical (all positional)
 
 
 def fmt_key(t):
@@ -63,7 +63,7 @@ def r_filter(ctx):
                 single = lookup(p.decided, ("cmp", "==", c[2], const(1)))
         tag = "%s,%s" % ("weights" if weighted else "noweights", "single" if single else "multi")
         cfi = [e.data[0] for e in p.events if e.kind == "call" and callee(e.data[0]) == "verde.base.utils.check_fit_input"]
-        ctx.check("R5", "%s|check_fit_input-unpack-False|%s" % (qn, tag), True if cfi and canon(cfi[0]) == canon(CFI) else (False if cfi and kw(cfi[0], "unpack") in (None, const(True)) else None),
+        ctx.check("R5", "%s|check_fit_input-unpack-False|%s" % (qn, tag), True if cfi and canon(cfi[0]) == canon(CFI) else (False if cfi and Q.arg(ctx, cfi[0], "unpack") in (None, const(True)) else None),
                   "inputs are validated with unpack=False (tuples throughout)", bad="check_fit_input is called with unpack=True: single components are not tuples", fn=qn)
         aggs = [e.data[0] for e in p.events if e.kind == "call" and e.data[0][1][0] == "attr" and e.data[0][1][2] in ("aggregate", "agg")]
         if len(aggs) != 1:
